@@ -425,6 +425,89 @@ func VerifC05_DependencyWaits() {
 	rt.Reach("depwait-end")
 }
 
+// ---- work of every kind that has finished before the stop (or, for a signalled
+// microtask, is ended right after the cancellation) does not hold up the stop:
+// it completes at once, not by waiting out the stop timeout ----
+
+func VerifC05_FinishedWorkDoesNotHoldUpStop() {
+	rt.NoTimers()
+	rt.SchedYieldOnly(true)
+	SetStdErrReporting(false)
+	c05Reset()
+	// a lost count must show up as a hang, not as a silent one-minute timeout
+	moduleStopTimeout = time.Hour
+	atomic.StoreInt32(microTasks, 0)
+	if rt.Symbolic() {
+		microTaskSchedulerStarted.UnSet()
+	}
+	for len(mediumPriorityClearance) > 0 {
+		<-mediumPriorityClearance
+	}
+	for len(lowPriorityClearance) > 0 {
+		<-lowPriorityClearance
+	}
+	for len(microTaskFinished) > 0 {
+		<-microTaskFinished
+	}
+	SetMaxConcurrentMicroTasks(2)
+	go microTaskScheduler()
+	m := initNewModule("m", nil, nil, nil)
+	m.status = StatusOnline
+	close(m.startComplete)
+	ran := 0
+	finished := make(chan struct{})
+	body := func(ctx context.Context) error {
+		ran++
+		close(finished)
+		return nil
+	}
+	var pendingDone func()
+	afterCancel := false
+	kind := rt.Choice("kind", 9)
+	switch kind {
+	case 0:
+		_ = m.RunWorker("w", body)
+	case 1:
+		m.StartWorker("w", body)
+		<-finished
+	case 2:
+		_ = m.RunHighPriorityMicroTask("mt", body)
+	case 3:
+		m.StartHighPriorityMicroTask("mt", body)
+		<-finished
+	case 4:
+		_ = m.RunMicroTask("mt", 0, body)
+	case 5:
+		_ = m.RunLowPriorityMicroTask("mt", 0, body)
+	case 6:
+		pendingDone = m.SignalHighPriorityMicroTask()
+	case 7:
+		pendingDone = m.SignalMicroTask(time.Second)
+	case 8:
+		pendingDone = m.SignalLowPriorityMicroTask(time.Second)
+	}
+	if pendingDone != nil {
+		afterCancel = rt.Bool("signalled-microtask-ends-after-the-cancellation")
+		if !afterCancel {
+			pendingDone()
+		}
+	} else {
+		rt.Assert(ran == 1, "finishedwork/ran")
+	}
+	reports := make(chan *report, 1)
+	m.stop(reports)
+	if afterCancel {
+		<-m.Ctx.Done()
+		rt.Assert(len(reports) == 0, "finishedwork/stop-waits-for-the-signalled-microtask")
+		pendingDone()
+	}
+	rep := <-reports
+	rt.Assert(rep.err == nil, "finishedwork/stop-ok")
+	rt.Assert(m.Status() == StatusOffline, "finishedwork/offline")
+	rt.Assert(atomic.LoadInt32(m.microTaskCnt) == 0 && atomic.LoadInt32(m.workerCnt) == 0, "finishedwork/nothing-counted-as-running")
+	rt.Reach("finishedwork-end")
+}
+
 func c05Reset() {
 	modules = make(map[string]*Module)
 	modulesLocked.UnSet()
